@@ -265,16 +265,18 @@ fn setup(ci: u64, rng: &mut Rng) -> Option<Setup> {
             return None;
         }
     }
-    // ---- context P0: candidates reference the state here; commit position n = P0 + w_close + 1
+    // ---- context P0: candidates reference the state here; commit position n = P0 + w_close + 2
     let p0 = tip;
     let st = tg.rc.replay(&p0);
     let (w_close, _) = tg.rc.window;
-    let n = tg.rc.get(&p0).number + w_close + 1;
+    // one block later than the earliest commit position, so that position n-1 is inside the
+    // proposal window as well (used by the commit-position shift of C14)
+    let n = tg.rc.get(&p0).number + w_close + 2;
     // the epoch of block n (all later epochs have the same length)
     let tip_epoch = tg.rc.get(&p0).block.epoch();
     let epoch_n = {
         let mut e = tip_epoch;
-        for _ in 0..(w_close + 1) {
+        for _ in 0..(w_close + 2) {
             e = if e.index() + 1 < e.length() { EpochNumberWithFraction::new(e.number(), e.index() + 1, e.length()) } else { EpochNumberWithFraction::new(e.number() + 1, 0, epoch_len) };
         }
         e
@@ -510,7 +512,7 @@ fn setup(ci: u64, rng: &mut Rng) -> Option<Setup> {
         let t_c = tg.rc.get(&sc.block_hash).block.timestamp();
         let cap = cap_of(&sc);
         let op = out_point(&sk);
-        // parent of n is block n-1 = P0 + w_close; timestamps: P0.ts + i (ts_step_max = 1 => +1 each)
+        // parent of n is block n-1 = P0 + w_close + 1; timestamps: P0.ts + i (ts_step_max = 1 => +1 each)
         // median over the last 5 blocks ending at n-1
         let mut tss: Vec<u64> = vec![];
         {
@@ -524,7 +526,7 @@ fn setup(ci: u64, rng: &mut Rng) -> Option<Setup> {
             }
             tss.reverse();
             let base = tg.rc.get(&p0).block.timestamp();
-            for i in 1..=w_close {
+            for i in 1..=(w_close + 1) {
                 // each filler: max(parent+1, median+1) = parent + 1 as timestamps are increasing
                 tss.push(base + i);
             }
@@ -607,7 +609,7 @@ fn setup(ci: u64, rng: &mut Rng) -> Option<Setup> {
         cands.iter().flat_map(|c| c.pre.iter().cloned().chain(std::iter::once(c.tx.clone()))).chain(all).filter(|t| seen.insert(t.hash())).collect()
     };
     let mut cur = tg.extend_ex(&p0, &all);
-    for _ in 1..w_close {
+    for _ in 0..w_close {
         cur = tg.extend(&cur);
     }
     if tg.rc.get(&cur).number + 1 != n {
@@ -850,7 +852,7 @@ pub fn run(args: &Args) -> i32 {
         }
         let mut crng = rng.fork(ci);
         vnode::node::set_time(ChainParams::default().genesis_timestamp + 3_000_000_000);
-        let Some(s) = setup(ci, &mut crng) else {
+        let Some(mut s) = setup(ci, &mut crng) else {
             c04.count("contexts_discarded");
             continue;
         };
@@ -1017,6 +1019,40 @@ pub fn run(args: &Args) -> i32 {
                 if a3.get(k) != Some(v) {
                     let kind = k.split('|').next().unwrap_or("?");
                     c14.violation(&format!("answer_differs_with_cold_caches.{kind}"), format!("query {k}: warm {v}, cold {:?}", a3.get(k)), json!({"context": ci}));
+                }
+            }
+        }
+        // C14: commit-position shift. Every candidate has been verified (and cached) on the warm
+        // node as valid for position n; the same transactions offered one block earlier (position
+        // n-1, still inside the proposal window) do not meet their since / maturity condition and
+        // must be refused although their script result is cached. Last use of n1 and the builder.
+        {
+            let parent = s.tg.rc.get(&s.tip).parent;
+            let shifted: Vec<&Cand> = s.cands.iter().filter(|c| matches!(c.name, "valid.since_abs_block_at_threshold" | "valid.since_rel_block_at_threshold" | "valid.since_abs_epoch_at_threshold" | "valid.since_rel_epoch_at_threshold" | "valid.cellbase_exactly_mature" | "valid.since_second_input_at_threshold_after_zero_since_input")).collect();
+            if !shifted.is_empty() && vec1.iter().filter(|(k, _)| shifted.iter().any(|c| c.name == **k)).all(|(_, v)| v.1) {
+                for c in &shifted {
+                    let _ = n1.shared.tx_pool_controller().test_accept_tx(c.tx.clone());
+                }
+                s.tg.goto(&parent);
+                let pb = packed::Byte32::from_slice(&parent).unwrap();
+                if n1.chain().truncate(pb.clone()).is_ok() {
+                    let _ = n1.shared.tx_pool_controller().clear_pool(n1.shared.cloned_snapshot());
+                    for c in &shifted {
+                        let (blk, _) = block_with(&s, std::slice::from_ref(&c.tx));
+                        let res = n1.chain().blocking_process_block(Arc::new(blk.clone()));
+                        let accepted = matches!(res, Ok(true)) && h(&n1.tip_hash()) == h(&blk.hash());
+                        c14.eval();
+                        c14.count("commit_position_shift_events");
+                        c14.distinct_str(&format!("{}|shifted", c.name));
+                        if accepted {
+                            c14.violation(
+                                &format!("context_dependent_check_skipped_after_caching@{}", c.name),
+                                format!("`{}` was verified and cached as valid for commit position {}; offered at position {} (condition not met) the block was attached", c.name, s.tg.rc.get(&s.tip).number + 1, s.tg.rc.get(&s.tip).number),
+                                json!({"context": ci, "candidate": c.name}),
+                            );
+                            let _ = n1.chain().truncate(pb.clone());
+                        }
+                    }
                 }
             }
         }
